@@ -23,3 +23,15 @@ package ziptree
 //@   ensures has(t.view, string(node.Key)) && t.view[string(node.Key)] == node
 //@   ensures forall(func(k string) bool { return k != string(node.Key) ==> has(t.view, k) == has(old(t.view), k) && t.view[k] == old(t.view)[k] })
 //@   ensures result == ite(has(old(t.view), string(node.Key)), old(t.view)[string(node.Key)], nil)
+
+// AscendPrefix: the nodes whose key has the prefix, in strictly ascending key order, each the
+// tree's node for its key, none missing (assumed, like the rest of the tree's view).
+//@ func ZipTree.AscendPrefix
+//@   property C07 C03
+//@   trusted
+//@   pure
+//@   reads t.view
+//@   modifies nothing
+//@   ensures forall(0, seqlen(result), func(p int) bool { return seqat(result, p) != nil && has(t.view, string(seqat(result, p).Key)) && t.view[string(seqat(result, p).Key)] == seqat(result, p) && hasprefix(seqat(result, p).Key, prefix) })
+//@   ensures forall(0, seqlen(result), func(p int) bool { return forall(0, p, func(q int) bool { return string(seqat(result, q).Key) < string(seqat(result, p).Key) }) })
+//@   ensures forall(func(k string) bool { return has(t.view, k) && hasprefix(k, prefix) ==> exists(0, seqlen(result), func(p int) bool { return seqat(result, p) == t.view[k] }) })
